@@ -250,6 +250,8 @@ def gen_program(rng, opts=None):
                 out.append(j)
         return out
 
+    emitted = []
+
     def gen_block(m, mi, depth, budget, in_fsm):
         stmts = []
         n = r.randint(1, 3)
@@ -283,14 +285,35 @@ def gen_program(rng, opts=None):
                 stmts.append(["assign", dom, t, rhs])
                 if dom not in m["stmt_domains"]:
                     m["stmt_domains"].append(dom)
+                if in_fsm is None and t[0] in ("sig", "slice") and shape_of(t, sigs)[0] > 0:
+                    emitted.append((t, dom))
+                if in_fsm is None and emitted and o.get("refusals", True) and r.random() < 0.08:
+                    # fault: a statement the DSL must refuse (same bits, another domain of this module), caught by the
+                    # caller, in the middle of building the module; the design must be as if it had never been attempted
+                    t0, d0 = r.choice(emitted)
+                    others = [x for x in ["comb"] + [d["name"] for d in domains] if x != d0]
+                    if others:
+                        stmts.append(["refused", r.choice(others), t0])
             else:
                 # conditions are read by every statement in the body, which may be combinational: keep them to inputs and
                 # purely synchronous signals
                 rd = list(inputs) + ctl + [j for j in drv if not has_comb.get(j)]
                 if k < 0.72:
                     arms = []
-                    for _ in range(r.randint(1, 3)):
-                        arms.append([g.numeric(rd, 1), gen_block(m, mi, depth - 1, budget, in_fsm)])
+                    for ai in range(r.randint(1, 3)):
+                        n0 = len(emitted)
+                        body = gen_block(m, mi, depth - 1, budget, in_fsm)
+                        if ai > 0 and in_fsm is None and n0 and o.get("refusals", True) and r.random() < 0.25:
+                            t0, d0 = r.choice(emitted[:n0])
+                            others = [x for x in ["comb"] + [d["name"] for d in domains] if x != d0]
+                            if others and r.random() < 0.5:
+                                # a refused statement at the end of an Elif body, caught inside the body
+                                body.append(["refused", r.choice(others), t0])
+                            elif others:
+                                # ... or caught *around* the whole `with m.Elif(...)`: the branch is then simply absent
+                                body = [st for st in body if st[0] == "assign"][:2] + [["abort", r.choice(others), t0]]
+                                del emitted[n0:]
+                        arms.append([g.numeric(rd, 1), body])
                     els = gen_block(m, mi, depth - 1, budget, in_fsm) if r.random() < 0.5 else None
                     stmts.append(["if", arms, els])
                 elif k < 0.9:
@@ -314,6 +337,7 @@ def gen_program(rng, opts=None):
 
     for mi, m in enumerate(mods):
         budget = [o["max_stmts"]]
+        del emitted[:]
         m["stmts"] = gen_block(m, mi, 2, budget, None)
         if o["fsm"] and r.random() < 0.4:
             fd = r.choice(domains)["name"]
@@ -471,6 +495,8 @@ def build(prog):
     """-> Built with .top (Elaboratable), .sigs (list of Signal), .ongoing {(fsm id, state): Signal}"""
     from amaranth.hdl import (Module, Signal, Const, Cat, Mux, Array, signed, unsigned, Elaboratable, ResetInserter,
                               EnableInserter, DomainRenamer, Print, Assert, Assume, Format, ClockSignal, ResetSignal)
+    from amaranth import hdl as _hdl
+    AmaranthSyntaxError = getattr(_hdl, "SyntaxError", SyntaxError)     # amaranth raises its own SyntaxError subclass
     B = Built()
     B.sigs = [Signal(signed(s["width"]) if s["signed"] else unsigned(s["width"]), name=s["name"],
                      init=(s["init"] - (1 << s["width"]) if (s["signed"] and s["width"] and s["init"] >> (s["width"] - 1))
@@ -548,10 +574,16 @@ def build(prog):
             elif k == "if":
                 first = True
                 for cond, body in st[1]:
+                    if body and body[-1][0] == "abort":
+                        try:
+                            with m.Elif(ex(cond)):
+                                emit(m, body[:-1], fsm_ctx)
+                                m.d[body[-1][1]] += ex(body[-1][2]).eq(0)
+                        except AmaranthSyntaxError:
+                            continue
+                        raise RuntimeError("progen: a statement driving already-driven bits from another domain was accepted")
                     with (m.If(ex(cond)) if first else m.Elif(ex(cond))):
                         emit(m, body, fsm_ctx)
-                        if not body:
-                            pass
                     first = False
                 if st[2] is not None:
                     with m.Else():
@@ -578,6 +610,13 @@ def build(prog):
                         B.ongoing[(f["id"], name)] = fsm.ongoing(name)
             elif k == "next":
                 m.next = st[3]
+            elif k == "refused":
+                try:
+                    m.d[st[1]] += ex(st[2]).eq(0)
+                except AmaranthSyntaxError:
+                    pass
+                else:
+                    raise RuntimeError("progen: a statement driving already-driven bits from another domain was accepted")
             elif k == "print":
                 m.d[st[1]] += Print(fmt(st[2]))
             elif k == "assert":
